@@ -9,10 +9,10 @@ PID = "C10"
 ANCHORS = ["pyoma2.functions.gen:SC_apply", "pyoma2.functions.gen:MAC", "pyoma2.algorithms.ssi:SSIdat.run", "pyoma2.algorithms.ssi:SSIdat_MS.run",
            "pyoma2.algorithms.plscf:pLSCF.run", "pyoma2.algorithms.plscf:pLSCF_MS.run"]
 REQUIRED_MONITORS = ["labels@SC_apply(function)", "labels@SC_apply(inside SSIcov.run)", "labels@SC_apply(inside SSIdat.run)", "labels@SC_apply(inside pLSCF.run)",
-                     "labels@SC_apply(inside SSIcov_MS.run)", "labels@SC_apply(inside pLSCF_MS.run)", "purity@SC_apply", "result.Lab==labels of final tables", "labels kept after a later call"]
+                     "labels@SC_apply(inside SSIcov_MS.run)", "labels@SC_apply(inside pLSCF_MS.run)", "purity@SC_apply", "result.Lab==labels of final tables", "labels kept after a later call", "labels under another floating-point error mode"]
 ALL_STATES = ["stable", "fails fn only", "fails xi only", "fails MAC only", "fails several", "prev column empty", "NaN pole", "below ordmin", "first column",
               "above ordmax", "nearest neighbour is not the same row"]
-REQUIRED_STATES = ["tolerances given as Decimal / Fraction / numpy numbers", "mode shapes with an exact zero in the first channel", "a tolerance of exactly zero through the classes", "tolerance dictionary in another key order", "ordmin = ordmax", "tolerances 1e-6..1e-7 on small damping / frequency", "run with covariance criterion", "stable", "fails fn only", "fails xi only", "fails MAC only", "prev column empty", "NaN pole", "below ordmin", "first column",
+REQUIRED_STATES = ["a tolerance above 1 / infinite (criterion switched off)", "tolerances given as Decimal / Fraction / numpy numbers", "mode shapes with an exact zero in the first channel", "a tolerance of exactly zero through the classes", "tolerance dictionary in another key order", "ordmin = ordmax", "tolerances 1e-6..1e-7 on small damping / frequency", "run with covariance criterion", "stable", "fails fn only", "fails xi only", "fails MAC only", "prev column empty", "NaN pole", "below ordmin", "first column",
                    "nearest neighbour is not the same row"]
 RULE = ("pole tables up to 40 orders x 12 rows with random / structured NaN patterns, per-column row shuffles, duplicates and close frequencies, "
         "complex shapes and perturbations straddling each tolerance; every cell's label compared with an independent model (nearest finite "
@@ -203,8 +203,29 @@ def run_tables(ctx, rng, structured, case):
         ctx.state("tolerances 1e-6..1e-7 on small damping / frequency")
     if make_table.zero_first:
         ctx.state("mode shapes with an exact zero in the first channel")
+    if case["k"] % 9 == 4:
+        # a criterion switched off by a tolerance nothing can exceed: relative differences of damping (and frequency) are not bounded by 1
+        exi = [3.0, float("inf"), 1.5][case["k"] // 9 % 3]
+        if case["k"] // 27 % 2:
+            efn = 2.0
+        # ... and damping estimates that do differ by more than a factor of two between neighbouring orders
+        fin_ = np.isfinite(Xi)
+        Xi = np.where(fin_ & (rng.random(Xi.shape) < 0.4), Xi * rng.choice([0.3, 2.7, 6.0], size=Xi.shape), Xi)
+        ctx.state("a tolerance above 1 / infinite (criterion switched off)")
     args = (Fn, Xi, Phi, ordmin, ordmax, step, efn, exi, ephi)
     copies = (Fn.copy(), Xi.copy(), Phi.copy())
+    # the labels are a function of the tables and the tolerances - not of the floating-point error mode the caller happens to work in
+    if case["k"] % 4 == 1 and not np.any(Fn == 0) and not np.any(Xi == 0):
+        with np.errstate(all="ignore"):
+            L_ign = np.asarray(G_.SC_apply(Fn.copy(), Xi.copy(), Phi.copy(), ordmin, ordmax, step, efn, exi, ephi))
+        try:
+            with np.errstate(invalid="raise", divide="raise"):
+                L_raise = np.asarray(G_.SC_apply(Fn.copy(), Xi.copy(), Phi.copy(), ordmin, ordmax, step, efn, exi, ephi))
+        except FloatingPointError as e_:
+            L_raise = f"FloatingPointError: {e_}"
+        ctx.ev("labels under another floating-point error mode")
+        ctx.check(isinstance(L_raise, np.ndarray) and np.array_equal(L_ign, L_raise), "labels:depend_on_floating_point_error_mode",
+                  lambda: f"SC_apply under np.errstate(invalid='raise', divide='raise') gives {L_raise if isinstance(L_raise, str) else str(int((L_ign != L_raise).sum())) + ' other labels'} than under errstate(all='ignore')")
     if Fn.shape[0] == 1:
         ctx.state("one pole slot per order")
     targs = args
@@ -214,7 +235,7 @@ def run_tables(ctx, rng, structured, case):
         import fractions
 
         kind = ["decimal", "fraction", "numpy float64", "0-d array", "decimal"][(case["k"] // 5) % 5]
-        conv = {"decimal": lambda v: decimal.Decimal(repr(v)), "fraction": lambda v: fractions.Fraction(repr(v)), "numpy float64": np.float64,
+        conv = {"decimal": lambda v: decimal.Decimal(repr(v)), "fraction": lambda v: fractions.Fraction(repr(v)) if np.isfinite(v) else v, "numpy float64": np.float64,
                 "0-d array": lambda v: np.array(v)}[kind]
         targs = args[:6] + tuple(conv(float(v)) for v in (efn, exi, ephi))
         ctx.state("tolerances given as Decimal / Fraction / numpy numbers")
